@@ -3,6 +3,8 @@
 
 package monitor
 
+import "sync"
+
 // Accessors for the correspondence harness of property C19 (statistics equal
 // the statistics of the recorded measures). Compiled with the build tag
 // "verif" only; nothing here is called by the package itself.
@@ -59,4 +61,33 @@ func (m *Monitor) VerifBucket(index int) *Stats {
 // VerifPort waits for the port Listen bound when SinkPort was 0.
 func (m *Monitor) VerifPort() uint16 {
 	return <-m.sinkPortChan
+}
+
+var (
+	verifLastMu sync.Mutex
+	verifLast   *Monitor
+)
+
+// verifNewMonitor remembers the monitor made last (simul.RunTest makes its
+// monitor itself and does not hand it out).
+func verifNewMonitor(m *Monitor) *Monitor {
+	verifLastMu.Lock()
+	verifLast = m
+	verifLastMu.Unlock()
+	return m
+}
+
+// VerifLastMonitor returns the monitor NewMonitor made last.
+func VerifLastMonitor() *Monitor {
+	verifLastMu.Lock()
+	defer verifLastMu.Unlock()
+	return verifLast
+}
+
+// VerifConns returns the number of reporting connections Listen has accepted
+// and not yet removed.
+func (m *Monitor) VerifConns() int {
+	m.mutexConn.Lock()
+	defer m.mutexConn.Unlock()
+	return len(m.conns)
 }
